@@ -764,6 +764,12 @@ impl Real {
                         // D9: the chain of the right with the empty name joins the chain that precedes it
                         match w.secrets.iter().position(|(r, _)| r.is_empty()) { Some(p) if p >= 1 => { let (_, c) = w.secrets.remove(p); w.secrets[p - 1].1.extend(c); true } _ => false }
                     }
+                    // the boundary between the identifier and the first right: the last marker becomes the head of the first
+                    // right's name (same MAC stream, one marker fewer: another tracing level, an identifier nobody issued)
+                    "marker_into_name" => { if w.id.len() >= 2 && n >= 1 { let mk = w.id.pop().unwrap(); let mut name = mk; name.extend_from_slice(&w.secrets[0].0); w.secrets[0].0 = name; true } else { false } }
+                    // … and the other way round: the classic secret of a first right with the empty name becomes one more marker
+                    "secret_into_id" => { if n >= 1 && w.secrets[0].0.is_empty() && w.secrets[0].1[0].hyb == 0 && w.secrets[0].1[0].a.len() == w.id.first().map_or(0, |m| m.len()) {
+                        let k = w.secrets[0].1.remove(0); w.id.push(k.a); if w.secrets[0].1.is_empty() { w.secrets.remove(0); } true } else { false } }
                     "reflavour" => num(0).map(|a| { if a < n && w.secrets[a].1[0].hyb == 1 { w.secrets[a].1[0].hyb = 0; w.secrets[a].1[0].b.clear(); true } else { false } }).unwrap_or(false),
                     "strip_sig" => { if w.signature.is_some() { w.signature = None; true } else { false } }
                     "flip_sig" => num(0).map(|k| { if let Some(s) = w.signature.as_mut() { s[k % 32] ^= 1; true } else { false } }).unwrap_or(false),
